@@ -883,8 +883,12 @@ where
             Err(None)
         } else {
             let truncated_state = self.state ^ (State::one() << valid_bits);
-            self.bulk
-                .extend_from_iter(bit_array_to_chunks_truncated(truncated_state).rev())?;
+            // Emit exactly `valid_bits / Word::BITS` words (least significant first). We must
+            // not truncate leading zero words here since they are part of the binary data.
+            self.bulk.extend_from_iter(
+                (0..valid_bits / Word::BITS)
+                    .map(|i| AsPrimitive::<Word>::as_(truncated_state >> (i * Word::BITS))),
+            )?;
             Ok(self.bulk)
         }
     }
